@@ -10,6 +10,6 @@ for id in $ids; do
   grep -q "\"$prop\":" engine/replay.go || continue
   git -C /repo apply /verif/seeded/$id/patch.diff || continue
   out=$(timeout 600 ./engine/bin/govc harness $prop 2>&1 | grep -E "REPLAY-FAIL|no failure" | cut -c1-260 | tr '\n' ' ')
-  git -C /repo checkout -- .
+  git -C /repo apply -R /verif/seeded/$id/patch.diff 2>/dev/null || git -C /repo checkout -- .
   echo "$id: ${out:-harness did not run}"
 done
